@@ -6,7 +6,13 @@ mod simgram;
 use vcommon::{Ctx, Verdict};
 
 fn check_raw(case: &raw::Case) -> Verdict {
-    let obs = raw::execute(case);
+    // VERIF_TRACE_RT=1: print the runtime's own tracing events (debugging aid for replays)
+    let obs = if std::env::var("VERIF_TRACE_RT").is_ok() {
+        let sub = tracing_subscriber::fmt().with_max_level(tracing::Level::TRACE).with_writer(std::io::stderr).without_time().finish();
+        tracing::subscriber::with_default(sub, || raw::execute(case))
+    } else {
+        raw::execute(case)
+    };
     if std::env::var("VERIF_DUMP").is_ok() {
         for (i, r) in obs.remotes.iter().enumerate() {
             eprintln!("remote {} id={} cap={} dropped={:?} reason={:?} eof={} sent:", i, r.id, r.out_cap, r.dropped_at, r.reason, r.eof);
@@ -48,10 +54,10 @@ fn main() {
     ctx.assume("the harness lanes obey the lane protocol: sync events and synced only for remote ids whose sync request the lane has read");
     ctx.assume("single-threaded harness-owned schedule; paused clock; shutdown_timeout is never allowed to expire");
     ctx.assume("a lane that merely closes its channels (no malformed output) is not counted as a failed lane: no unlinked is demanded for it before the agent stops");
-    let n = ctx.pick(60_000, 3_000_000);
+    let n = ctx.pick(500_000, 6_000_000);
     let max_ops = ctx.pick(80, 200);
     ctx.prop("rawlane", n, move || raw::arb_case(max_ops), check_raw);
-    let n = ctx.pick(40_000, 2_000_000);
+    let n = ctx.pick(300_000, 4_000_000);
     let max_ops = ctx.pick(70, 200);
     ctx.prop("simagent-grammar", n, move || simgram::arb_case(max_ops), simgram::check);
     ctx.finish();
